@@ -936,6 +936,42 @@ POWERS = [_mk(_Power, "power", ("q", "s")), _mk(_Power, "power", ("Q", "s"))]
 ALL += POWERS
 
 
+# ------------------------------------------------------------------ arctan2
+class _Arctan2(_Commensurable):
+    """np.arctan2(a, b): operands of one dimension (C01: refused otherwise, operands untouched); the angle of
+    the SI magnitudes -- arctan2 is invariant under a common positive rescaling (assumed NumPy algebra) --
+    returned as a pure number (C04)"""
+    kind = None
+
+    def ensures(self, it, a, r, old):
+        P = it.domain.prefix_table(it)
+        self.instantiate(it, a, old)
+        si0, si1 = self.si(it, a, 0, old), self.si(it, a, 1, old)
+        if not N.is_unyt_array(r):
+            return [("result is a unyt object", False)]
+        ru = r.fields["units"]
+        u0, u1 = self.eff_units(it, a)
+        fn = N.BINARY_UFUNCS["arctan2"]
+        k = S.scale(u0)
+        it.assume(N.homogeneity_fact("arctan2", k, si0 / k, si1 / k))
+        z0, z1 = bare_zero(it, a, 0), bare_zero(it, a, 1)
+        law = to_real(N.arr_elem(r)) == fn(si0, si1)
+        out = [(self.law_tag() + ": the result is arctan2 of the SI magnitudes",
+                z3.Implies(z3.And(self.exact_case(it, a), z3.Not(z0), z3.Not(z1)), law)),
+               ("C04: the result is a pure number (dimensionless, scale 1, no zero point)",
+                z3.And(S.scale(ru) == 1, S.offset(ru) == 0, _b(S.dim(ru).is_one())))]
+        return out + self.frames(a, old) + self.class_post(it, r) + self.out_post(it, a, r)
+
+    def canary(self, it, a, r, old):
+        if not N.is_unyt_array(r):
+            return None
+        return to_real(N.arr_elem(r)) == 12345
+
+
+ARCTAN2 = [_mk(_Arctan2, "arctan2", _cfg) for _cfg in (("q", "q"), ("q", "s"), ("s", "q"))]
+ALL += ARCTAN2
+
+
 # ------------------------------------------------------------------ use at call sites
 def _callsite_result(self, it, a, old):
     """the state after a successful call, as far as the proved postconditions pin it down: a
